@@ -144,7 +144,7 @@ static void inv_case(mp_size_t nn, mp_size_t dn, int how, int dk, int place) {
   mp_size_t qn = nn - dn;
   mp_ptr n = gb_get(0, nn, place), d = gb_get(1, dn, place), q = gb_get(2, qn, place), w = gb_get(3, nn, place), inv = gb_get(5, dn, place); mp_limb_t qh;
   mk_divisor(d, dn, dk); mk_dividend(n, nn, d, dn, how);
-  fn_begin("mpn_invert"); fn_in_limbs("a", d, dn); fn_in_int("n", dn); fn_mid(); gb_fill(inv, dn); mpn_invert(inv, d, dn); fn_out_limbs("x", inv, dn); fn_end();
+  fn_begin("mpn_invert"); fn_in_limbs("a", d, dn); fn_in_int("n", dn); fn_mid(); gb_fill(inv, dn); mpn_invert(inv, d, dn); fn_out_limbs("r", inv, dn); fn_end();      /* same event format as k1_inv: decided by SemK1 */
   if (dn >= 6 && qn >= 3) {
     MPN_COPY(w, n, nn); fn_begin("mpn_inv_div_qr"); IN_ND(); gb_fill(q, qn); qh = mpn_inv_div_qr(q, w, nn, d, dn, inv); fn_out_limbs("q", q, qn); fn_out_u64("qh", qh); fn_out_limbs("r", w, dn); fn_end();
     MPN_COPY(w, n, nn); fn_begin("mpn_inv_div_q"); IN_ND(); gb_fill(q, qn); qh = mpn_inv_div_q(q, w, nn, d, dn, inv); fn_out_limbs("q", q, qn); fn_out_u64("qh", qh); fn_end();
